@@ -563,7 +563,7 @@ func runConc(c CCase) *vt.Outcome {
 	// consequence: that finding takes precedence.
 	for _, g := range gs {
 		if g.fail != nil && g.fail.Sig == sigConcRef {
-			if vt.IsKnown(sigConcRef) {
+			if isKnown(sigConcRef) {
 				o.Known = append(o.Known, sigConcRef)
 				o.Label("known:nameref-rebinding-observed-by-goroutine")
 				return o
@@ -627,7 +627,7 @@ func concClassify(f *vt.Failure, o *vt.Outcome) *vt.Failure {
 		return nil
 	}
 	if strings.HasPrefix(f.Sig, "C05/nameref-bound-to-other-type/") {
-		if vt.IsKnown(sigConcRef) {
+		if isKnown(sigConcRef) {
 			o.Known = append(o.Known, sigConcRef)
 			o.Label("known:nameref-rebinding-found-in-tables-afterwards")
 			return nil
